@@ -545,3 +545,78 @@ func HarnessC19MethodPairs() {
 		}
 	}
 }
+
+// C19 (store operations): the wrapper and a plain store are driven by the same
+// history of H store-level and graph-level operations on one graph name -
+// create, drop, add one of two triples, list (page size and offset symbolic),
+// test existence - where every graph-level operation first
+// obtains its handle from the store (Graph(id)), as a client that does not keep
+// handles does: verdicts and answers agree at every step, and so do the lists
+// of graph names.  (A handle kept across a write through another handle is the
+// recorded C19 finding and does not occur here.)
+func HarnessC19StoreOps() {
+	H := verif.Param("H", 5)
+	pool := c19Pool()
+	ms := memoization.New(memory.NewStore())
+	ps := memory.NewStore()
+	names := func(s storage.Store) ([]string, error) {
+		ch := make(chan string, 8)
+		err := s.GraphNames(ctx, ch)
+		var out []string
+		for n := range ch {
+			out = append(out, n)
+		}
+		return out, err
+	}
+	for step := 0; step < H; step++ {
+		op := verif.Choice("op", 6)
+		switch op {
+		case 0:
+			_, e1 := ms.NewGraph(ctx, "?g")
+			_, e2 := ps.NewGraph(ctx, "?g")
+			verif.Assert((e1 == nil) == (e2 == nil), "C19/store/create-same-verdict")
+		case 1:
+			e1 := ms.DeleteGraph(ctx, "?g")
+			e2 := ps.DeleteGraph(ctx, "?g")
+			verif.Assert((e1 == nil) == (e2 == nil), "C19/store/drop-same-verdict")
+		case 2, 3:
+			arg := op - 2
+			mg, e1 := ms.Graph(ctx, "?g")
+			pg, e2 := ps.Graph(ctx, "?g")
+			verif.Assert((e1 == nil) == (e2 == nil), "C19/store/handle-same-verdict")
+			if e1 == nil && e2 == nil {
+				verif.Assert(mg.AddTriples(ctx, []*triple.Triple{pool[arg]}) == nil, "C19/add-succeeds")
+				pg.AddTriples(ctx, []*triple.Triple{pool[arg]})
+			}
+		default:
+			m, arg := 0, 0 // the full listing, or (op 5) the existence of the first triple
+			if op == 5 {
+				m = 3
+			}
+			mg, e1 := ms.Graph(ctx, "?g")
+			pg, e2 := ps.Graph(ctx, "?g")
+			verif.Assert((e1 == nil) == (e2 == nil), "C19/store/handle-same-verdict")
+			if e1 != nil || e2 != nil {
+				continue
+			}
+			max, off := 0, 0
+			if m == 0 {
+				max, off = verif.Int("max"), verif.Int("off")
+				verif.Assume(verif.And(verif.And(max >= 0, max <= 2), verif.And(off >= 0, off <= 1)))
+			}
+			got, gotE, err1 := c19read(mg, m, arg, &storage.LookupOptions{MaxElements: max, Offset: off}, pool)
+			want, wantE, err2 := c19read(pg, m, arg, &storage.LookupOptions{MaxElements: max, Offset: off}, pool)
+			verif.Reach("read")
+			verif.Assert((err1 == nil) == (err2 == nil), "C19/store/same-error")
+			if m == 3 {
+				verif.Assert(gotE == wantE, "C19/store/exist-same-answer")
+			} else {
+				verif.Assert(sameSeq(got, want), "C19/store/read-same-answer")
+			}
+		}
+	}
+	n1, e1 := names(ms)
+	n2, e2 := names(ps)
+	verif.Reach("end")
+	verif.Assert((e1 == nil) == (e2 == nil) && len(n1) == len(n2), "C19/store/same-graph-names")
+}
